@@ -116,7 +116,7 @@ func ruleC03(w *World, r *Report) {
 	const P = "C03"
 	r.Explanation = "R03.1 add/delete key agreement: the key lists of addPDR/delPDR (values and masks), addFAR/delFAR and add/del of both QER levels are equal element by element (sibling diff of provenance); R03.2 every list has the arity of the module declaration in conf/up4.bess and each element's source Go type is not wider than the declared num_bytes; constants (FAR actions, QER gates) agree with up4.bess; " +
 		"R03.2b each slot is filled from the field the statement maps to the pipeline's attr_name; R03.3 priority = K − precedence with K ≥ 2^32−1 in 32-bit unsigned arithmetic (antitone, no wrap), gate ← needDecap; FAR action table of setActionValue evaluated exhaustively over applyAction × dstIntf; qosLevel routes add and delete to the same table; " +
-		"R03.4 SetUpfInfo runs clearState on every path after the client exists and before any listener goroutine or return, clearState clears ⊇ the modules written; R03.5 every datapath write of the modification/deletion handlers is dominated by the found edge of store.GetSession, of the establishment handler by the node-id match and the allocated session; R03.6 accepted exits pass store.PutSession, modification programs create/update before remove and stores last; removed rules handed to the datapath are copies taken before the in-place shift."
+		"R03.4 SetUpfInfo runs clearState on every path after the client exists and before any listener goroutine or return, clearState clears ⊇ the modules written; R03.5 every datapath write of the modification/deletion handlers is dominated by the found edge of store.GetSession, of the establishment handler by the node-id match and the allocated session; R03.6 accepted exits pass store.PutSession, modification programs create/update before remove and stores last; removed rules handed to the datapath are copies taken before the in-place shift; R03.7 a rule the session refused (Create/Update/Remove returned an error) is not handed to the datapath; R03.8 aliasing contract: the modification handler copies PDRs into the datapath list before MarkSessionQer runs, so MarkSessionQer must reorder qerIDList in place (through the shared backing array)."
 	r.NotDecided = "packet-level 'iff' semantics of the installed image; what BESS does with a command"
 	bc := loadBessConf(w.Repo, P)
 
@@ -251,6 +251,8 @@ func ruleC03(w *World, r *Report) {
 	ruleC03Startup(w, r)
 	ruleC03Handlers(w, r)
 	ruleC03Removed(w, r)
+	ruleC03Skipped(w, r)
+	ruleC03InPlace(w, r)
 }
 
 // priorityShape: conv(K - precedence) with K ≥ 2^32-1 computed in an unsigned type of ≥ 32 bits.
@@ -829,4 +831,145 @@ func ruleC03Removed(w *World, r *Report) {
 			}
 		}
 	}
+}
+
+
+// ruleC03Skipped: in the session handlers, an element whose session-level operation failed is not
+// appended to the lists that go to the datapath.
+func ruleC03Skipped(w *World, r *Report) {
+	const P = "C03"
+	n := 0
+	for _, hn := range []string{"pfcpiface.(*PFCPConn).handleSessionModificationRequest"} {
+		h := w.Fn(P, hn)
+		allInstrs(h, func(i ssa.Instruction) {
+			c, ok := i.(*ssa.Call)
+			if !ok {
+				return
+			}
+			g := staticCallee(c)
+			if g == nil || g.Signature.Recv() == nil || rootTypeName(g.Signature.Recv().Type()) != "PFCPSession" {
+				return
+			}
+			name := g.Name()
+			if !(strings.HasPrefix(name, "Update") || strings.HasPrefix(name, "Remove") || strings.HasPrefix(name, "Create")) {
+				return
+			}
+			ev := errResult(c)
+			if ev == nil {
+				return
+			}
+			n++
+			// appends reachable from the call within the same iteration
+			okAll, any := true, false
+			allInstrs(h, func(j ssa.Instruction) {
+				ap, ok := j.(*ssa.Call)
+				if !ok {
+					return
+				}
+				b, isB := ap.Call.Value.(*ssa.Builtin)
+				if !isB || b.Name() != "append" {
+					return
+				}
+				if reach(h, c, func(k ssa.Instruction) bool { return k == j }, func(k ssa.Instruction) bool { return k == ssa.Instruction(c) }, nil) == nil {
+					return
+				}
+				// the same loop: the append can reach the call again
+				if reach(h, j, func(k ssa.Instruction) bool { return k == ssa.Instruction(c) }, nil, nil) == nil {
+					return
+				}
+				// only the list of this kind: the appended element type matches the rule kind of the call
+				if !strings.Contains(strings.ToLower(name), elemKind(ap)) {
+					return
+				}
+				any = true
+				if !errGuarded(h, c, ev, func(k ssa.Instruction) bool { return k == j }) {
+					okAll = false
+				}
+			})
+			if !any {
+				return
+			}
+			r.check(okAll, "R03.7", hn, fmt.Sprintf("a rule refused by %s (#%d) is not sent to the datapath", name, ordinalIn(h, c)), w.Pos(c.Pos()), "append only after err == nil", "after "+name+" failed (the rule is not part of the session) the element is still appended to the list handed to the datapath: an entry no session owns is installed and survives the session's deletion")
+		})
+	}
+	r.floor("R03.7 session-level operations followed by a datapath list append", n, 6)
+}
+
+// elemKind: "pdr", "far" or "qer" from the element type of an append.
+func elemKind(ap *ssa.Call) string {
+	if sl, ok := ap.Type().Underlying().(*types.Slice); ok {
+		return strings.ToLower(rootTypeName(sl.Elem()))
+	}
+	return "?"
+}
+
+// ruleC03InPlace: see R03.8.
+func ruleC03InPlace(w *World, r *Report) {
+	const P = "C03"
+	h := w.Fn(P, "pfcpiface.(*PFCPConn).handleSessionModificationRequest")
+	mark := w.Fn(P, "pfcpiface.(*PFCPSession).MarkSessionQer")
+	marks := callsTo(h, mark)
+	if len(marks) == 0 {
+		return
+	}
+	// does a PDR copy into the datapath list precede the mark?
+	copiedBefore := false
+	allInstrs(h, func(j ssa.Instruction) {
+		ap, ok := j.(*ssa.Call)
+		if !ok {
+			return
+		}
+		b, isB := ap.Call.Value.(*ssa.Builtin)
+		if !isB || b.Name() != "append" || elemKind(ap) != "pdr" {
+			return
+		}
+		for _, m := range marks {
+			if reach(h, j, func(k ssa.Instruction) bool { return k == m.(ssa.Instruction) }, nil, nil) != nil {
+				copiedBefore = true
+			}
+		}
+	})
+	if !copiedBefore {
+		r.trivial("R03.8", w.FuncName(h), "PDR copies are taken after MarkSessionQer", w.Pos(h.Pos()), "no aliasing dependency")
+		return
+	}
+	// then every store to pdrs[i].qerIDList in MarkSessionQer derives from the old slice (append(x[:i], …), x[a:b])
+	n := 0
+	allInstrs(mark, func(i ssa.Instruction) {
+		st, ok := i.(*ssa.Store)
+		if !ok {
+			return
+		}
+		fa, ok := st.Addr.(*ssa.FieldAddr)
+		if !ok || fieldVar(fa) == nil || fieldVar(fa).Name() != "qerIDList" {
+			return
+		}
+		n++
+		r.check(!isFreshSlice(st.Val) && sliceDerivesFromField(st.Val, "qerIDList", 0), "R03.8", w.FuncName(mark), fmt.Sprintf("qerIDList store #%d reorders in place", n), w.Pos(st.Pos()), "derived from the old slice", "MarkSessionQer installs a newly allocated qerIDList: the PDR copies the modification handler took before (and sends to the datapath) keep the old order, so the datapath entry carries the session QER as qer_id while the stored session looks right")
+	})
+	r.floor("R03.8 qerIDList stores in MarkSessionQer", n, 1)
+}
+
+func sliceDerivesFromField(v ssa.Value, field string, depth int) bool {
+	if depth > 6 {
+		return false
+	}
+	switch x := v.(type) {
+	case *ssa.Slice:
+		return sliceDerivesFromField(x.X, field, depth+1)
+	case *ssa.UnOp:
+		return loadsField(x, field)
+	case *ssa.Call:
+		if b, ok := x.Call.Value.(*ssa.Builtin); ok && b.Name() == "append" && len(x.Call.Args) > 0 {
+			return sliceDerivesFromField(x.Call.Args[0], field, depth+1)
+		}
+	case *ssa.Phi:
+		for _, e := range x.Edges {
+			if !sliceDerivesFromField(e, field, depth+1) {
+				return false
+			}
+		}
+		return len(x.Edges) > 0
+	}
+	return false
 }
